@@ -146,8 +146,11 @@ Proof.
   - split; [tauto|]. intros _ j t H. cbn. apply nth_app_old, H.
 Qed.
 
+Lemma CStep_query_gen prep h s : CStep s (fst (query_gen prep h s)).
+Proof. unfold query_gen. destruct (pool_of _ _); apply CStep_same; repeat split. Qed.
+
 Lemma CStep_query h s : CStep s (fst (query h s)).
-Proof. unfold query. destruct (pool_of _ _); apply CStep_same; repeat split. Qed.
+Proof. apply CStep_query_gen. Qed.
 
 Lemma CStep_on_timeout n s : CStep s (on_timeout g n s).
 Proof.
@@ -177,7 +180,7 @@ Proof.
   induction pl as [|h rest IH]; intros s Hc; cbn [send_loop].
   - destruct err; [rewrite final_after_exception; discriminate|reflexivity].
   - pose proof (query_shape h s) as Hq. assert (Hct : cur_timer (fst (query h s)) = cur_timer s).
-    { unfold query. destruct (pool_of _ _); reflexivity. }
+    { unfold query, query_gen. destruct (pool_of _ _); reflexivity. }
     destruct (query h s) as [s1 r]. cbn [fst] in Hct. destruct Hq as (_ & _ & _ & _ & _ & q6 & _). destruct r.
     + intros _. cbn. exact Hct.
     + destruct (timed_out_now s1).
@@ -247,13 +250,14 @@ Proof.
       unfold time_remaining in E. rewrite HT in E. lia.
 Qed.
 
+Lemma CStep_submit_task t s : CStep s (submit_task g t s).
+Proof. unfold submit_task. destruct (shut s); [apply CStep_set_final_exception|apply CStep_same; repeat split]. Qed.
+
 Lemma CStep_retry reuse h s : CStep s (retry g reuse h s).
 Proof.
   unfold retry. set (s1 := set_retries (retries s + 1) s).
   assert (H1 : CStep s s1) by (apply CStep_same; repeat split).
-  destruct (is_some (fexc s1)); [exact H1|]. destruct (shut s1).
-  - eapply CStep_trans; [exact H1|apply CStep_set_final_exception].
-  - eapply CStep_trans; [exact H1|]. apply CStep_same; repeat split.
+  destruct (is_some (fexc s1)); [exact H1|]. eapply CStep_trans; [exact H1|apply CStep_submit_task].
 Qed.
 
 Lemma CStep_start_refresh s : CStep s (start_refresh g s).
@@ -271,7 +275,7 @@ Qed.
 
 Lemma CStep_set_result a h k s : CStep s (set_result g a h k s).
 Proof.
-  destruct k as [more| |d| | | |]; [| |destruct d| | | |]; cbn [set_result].
+  destruct k as [more| |d| | | | |]; [| |destruct d| | | | |]; cbn [set_result].
   - apply CStep_set_final_rows.
   - apply CStep_set_final_result.
   - apply CStep_retry.
@@ -279,6 +283,7 @@ Proof.
   - apply CStep_set_final_exception.
   - apply CStep_set_final_result.
   - apply CStep_set_final_exception.
+  - apply CStep_submit_task.
   - apply CStep_start_refresh.
   - apply CStep_start_chain.
   - destruct (CStep_set_final_exception g (10 + Z.of_nat a) (cancel_timer s)) as (F & P & _).
@@ -288,12 +293,29 @@ Proof.
     + apply final_after_exception.
 Qed.
 
+Lemma CStep_query_then_send prep h s :
+  CStep s (let '(s1, r) := query_gen prep h s in match r with Some _ => s1 | None => send_request g true s1 end).
+Proof.
+  pose proof (CStep_query_gen prep h s) as Hq. destruct (query_gen prep h s) as [s1 r]. cbn [fst] in Hq.
+  destruct r; [exact Hq|]. eapply CStep_trans; [exact Hq|apply CStep_send_loop].
+Qed.
+
 Lemma CStep_retry_task reuse h s : CStep s (retry_task g reuse h s).
 Proof.
   unfold retry_task. destruct (is_some (fexc s)); [apply CStep_refl|].
   destruct reuse; [|apply CStep_send_loop].
   pose proof (CStep_query h s) as Hq. destruct (query h s) as [s1 r]. cbn [fst] in Hq.
   destruct r; [exact Hq|]. eapply CStep_trans; [exact Hq|apply CStep_send_loop].
+Qed.
+
+Lemma CStep_run_task t s : CStep s (run_task g t s).
+Proof.
+  destruct t as [reuse h|h|h a pk]; cbn [run_task].
+  - apply CStep_retry_task.
+  - apply (CStep_query_then_send true h s).
+  - unfold after_prepare. destruct (is_some (fexc s)); [apply CStep_refl|].
+    destruct pk; [apply (CStep_query_then_send false h s)|apply CStep_set_final_exception|apply CStep_set_final_exception
+                  |apply CStep_send_loop|apply CStep_set_final_exception].
 Qed.
 
 End G2.
@@ -369,28 +391,40 @@ Proof.
   destruct (e || err); rewrite ?att_set_final_result, ?att_set_final_exception; reflexivity.
 Qed.
 
+Lemma att_submit_task g t s : attempts (submit_task g t s) = attempts s.
+Proof. unfold submit_task. destruct (shut s); [apply att_set_final_exception|reflexivity]. Qed.
+
 Lemma att_set_result g a h k s : attempts (set_result g a h k s) = attempts s.
 Proof.
-  destruct k as [more| |d| | | |]; [| |destruct d| | | |]; cbn [set_result];
-    rewrite ?att_set_final_result, ?att_set_final_exception; try reflexivity.
+  destruct k as [more| |d| | | | |]; [| |destruct d| | | | |]; cbn [set_result];
+    rewrite ?att_set_final_result, ?att_set_final_exception, ?att_submit_task; try reflexivity.
   - destruct (rows_frame g (10 + Z.of_nat a) more s) as (r1 & _). exact r1.
-  - unfold retry. cbn. destruct (is_some (fexc s)); [reflexivity|]. destruct (shut s); [|reflexivity].
-    rewrite att_set_final_exception. reflexivity.
-  - unfold retry. cbn. destruct (is_some (fexc s)); [reflexivity|]. destruct (shut s); [|reflexivity].
-    rewrite att_set_final_exception. reflexivity.
+  - unfold retry. destruct (is_some (fexc _)); [reflexivity|]. rewrite att_submit_task. reflexivity.
+  - unfold retry. destruct (is_some (fexc _)); [reflexivity|]. rewrite att_submit_task. reflexivity.
   - unfold start_refresh. destruct (shut s); [apply att_set_final_result|reflexivity].
   - unfold start_chain. destruct (ks_hosts (pools s)); [apply att_set_final_result|reflexivity].
   - destruct (fl_cancel s) as (h1 & _). exact h1.
 Qed.
 
-Lemma ne_retry_task g reuse h s : attempts s <> [] -> attempts (retry_task g reuse h s) <> [].
+Lemma ne_query_then_send g prep h s : attempts s <> [] ->
+  attempts (let '(s1, r) := query_gen prep h s in match r with Some _ => s1 | None => send_request g true s1 end) <> [].
 Proof.
-  intros Hne. unfold retry_task. destruct (is_some (fexc s)); [exact Hne|].
-  destruct reuse; [|destruct (send_loop_A g true (plan s) s) as (a1 & _); apply a1, Hne].
-  pose proof (query_shape h s) as Hq. destruct (query h s) as [s1 r].
+  intros Hne. pose proof (query_gen_shape prep h s) as Hq. destruct (query_gen prep h s) as [s1 r].
   destruct Hq as (_ & _ & _ & _ & _ & _ & q7). destruct r.
   - destruct q7 as (q7 & _). rewrite q7. intros E. apply app_eq_nil in E. destruct E; discriminate.
   - destruct (send_loop_A g true (plan s1) s1) as (a1 & _). apply a1. rewrite q7. exact Hne.
+Qed.
+
+Lemma ne_run_task g t s : attempts s <> [] -> attempts (run_task g t s) <> [].
+Proof.
+  intros Hne. destruct t as [reuse h|h|h a pk]; cbn [run_task].
+  - unfold retry_task. destruct (is_some (fexc s)); [exact Hne|].
+    destruct reuse; [apply (ne_query_then_send g false h s Hne)|destruct (send_loop_A g true (plan s) s) as (a1 & _); apply a1, Hne].
+  - apply (ne_query_then_send g true h s Hne).
+  - unfold after_prepare. destruct (is_some (fexc s)); [exact Hne|].
+    destruct pk; rewrite ?att_set_final_exception; try exact Hne.
+    + apply (ne_query_then_send g false h s Hne).
+    + destruct (send_loop_A g true (plan s) s) as (a1 & _). apply a1, Hne.
 Qed.
 
 Lemma on_timeout_cases g n s :
@@ -491,7 +525,7 @@ Proof.
   induction pl as [|h rest IH]; intros s Ht; cbn [send_loop].
   - left. apply final_after_exception.
   - pose proof (query_shape h s) as Hq.
-    assert (Hto : timed_out_now (fst (query h s)) = timed_out_now s) by (unfold query; destruct (pool_of _ _); reflexivity).
+    assert (Hto : timed_out_now (fst (query h s)) = timed_out_now s) by (unfold query, query_gen; destruct (pool_of _ _); reflexivity).
     destruct (query h s) as [s1 r]. cbn [fst] in Hto. destruct Hq as (_ & _ & _ & _ & _ & _ & q7). destruct r.
     + right. destruct q7 as (q7 & _). cbn. rewrite q7. intros E. apply app_eq_nil in E. destruct E; discriminate.
     + rewrite Hto, Ht. apply IH. rewrite Hto. exact Ht.
@@ -571,7 +605,7 @@ Proof.
   intros H Hp.
   assert (HL : LInv (step true true s o)) by (destruct H as (_ & _ & _ & _ & HL & _); apply LInv_step, HL).
   assert (HS : SInv (step true true s o)) by (destruct H as (_ & _ & _ & _ & _ & HS); apply SInv_step, HS).
-  destruct o as [|ps|d|a k|k|k|pl| | |c hh err| |kk]; cbn [step] in *.
+  destruct o as [|ps|d|a k|k|k|pl| | |c hh err|a pk|fh| |kk]; cbn [step] in *.
   - (* Send *)
     eapply CInv_CStep; [exact H| |exact HL|exact HS|].
     + eapply CStep_trans; [|apply CStep_send_loop]. apply CStep_same; repeat split.
@@ -583,7 +617,7 @@ Proof.
     + intros j t Hj Hl. cbn. apply (Hp j t Hj Hl).
     + intros Hf. exact (h4 Hf).
   - (* Resp *)
-    destruct (nth_error (attempts s) a) as [at_|]; [|exact H]. destruct (aopen at_); [|exact H].
+    destruct (nth_error (attempts s) a) as [at_|]; [|exact H]. destruct (aopen at_ && negb (aprep at_)); [|exact H].
     destruct (astale at_).
     { eapply CInv_CStep; [exact H|apply CStep_same; repeat split|exact HL|exact HS|]. cbn. apply ne_upd_nth. }
     eapply CInv_CStep; [exact H| |exact HL|exact HS|].
@@ -595,16 +629,22 @@ Proof.
     apply andb_prop in El. destruct El as (El & Ed). apply Z.leb_le in Ed.
     exact (CInv_fire T s k t H Ek El Ed HL HS).
   - (* Run *)
-    destruct (nth_error (queue s) k) as [[reuse h]|]; [|exact H].
+    destruct (nth_error (queue s) k) as [t|]; [|exact H].
     eapply CInv_CStep; [exact H| |exact HL|exact HS|].
-    + eapply CStep_trans; [|apply CStep_retry_task]. apply CStep_same; repeat split.
-    + intros Hne. apply ne_retry_task. exact Hne.
+    + eapply CStep_trans; [|apply CStep_run_task]. apply CStep_same; repeat split.
+    + intros Hne. apply ne_run_task. exact Hne.
   - (* NextPage *)
     apply CInv_step_nextpage; exact H.
   - eapply CInv_CStep; [exact H|apply CStep_same; repeat split|exact HL|exact HS|tauto].
   - destruct (result_call s); [|exact H].
     eapply CInv_CStep; [exact H|apply CStep_same; repeat split|exact HL|exact HS|tauto].
   - eapply CInv_CStep; [exact H|apply CStep_ks_report|exact HL|exact HS|]. rewrite att_ks_report. tauto.
+  - (* PResp *)
+    destruct (nth_error (attempts s) a) as [at_|]; [|exact H]. destruct (aopen at_ && aprep at_); [|exact H].
+    eapply CInv_CStep; [exact H| |exact HL|exact HS|].
+    + eapply CStep_trans; [|apply CStep_submit_task]. apply CStep_same; repeat split.
+    + rewrite att_submit_task. cbn. apply ne_upd_nth.
+  - exact H.
   - eapply CInv_CStep; [exact H|apply CStep_same; repeat split|exact HL|exact HS|tauto].
   - destruct (refreshes s) as [|n]; [exact H|]. destruct (kk <=? n)%nat; [|exact H].
     eapply CInv_CStep; [exact H| |exact HL|exact HS|].
